@@ -181,6 +181,20 @@ fn strat(max: usize) -> BoxedStrategy<Case> {
                 2 => vec(0..16u8, n).prop_map({ let ca = ca.clone(); move |mask| ca.iter().zip(mask).map(|(x, k)| x & k).collect::<Vec<u8>>() }),
                 1 => vec(0..16u8, n).prop_map({ let ca = ca.clone(); move |mask| ca.iter().zip(mask).map(|(x, k)| x | k).collect::<Vec<u8>>() }),
                 1 => Just(ca.clone()),
+                // a subset of a with a stretch of gaps (the empty set) and at most one position that is
+                // not a subset: alignment rows with gap columns
+                3 => (vec(0..16u8, n), any::<u16>(), 14..70usize, any::<u16>(), 0..16u8).prop_map({ let ca = ca.clone(); move |(mask, start, run, at, extra)| {
+                    let mut b: Vec<u8> = ca.iter().zip(mask).map(|(x, k)| x & k).collect();
+                    if n > 0 {
+                        let s = scale16(start, n - 1);
+                        for x in b.iter_mut().skip(s).take(run) {
+                            *x = 0;
+                        }
+                        let p = scale16(at, n - 1);
+                        b[p] |= extra;
+                    }
+                    b
+                } }),
             ];
             let c = prop_oneof![
                 3 => gen::seq_spec(ID, 40),
